@@ -280,16 +280,27 @@ impl GenSource {
             let l = *rng.pick(&[61usize, 62, 63, 64, 65]);
             owner = Name(vec![vec![b'k'; l], b"example".to_vec()]);
         }
-        if big.is_none() && v.model.opt_index().is_none() && rng.chance(1, 25) {
-            // adding EDNS to a packet that has none: an OPT record appended to the additional section
+        let has_opt = v.model.opt_index().is_some();
+        if big.is_none() && ((!has_opt && rng.chance(1, 25)) || rng.chance(1, 90)) {
+            // adding EDNS to a packet that has none: an OPT record appended to the additional
+            // section. Irregular variants (a second OPT record, an OPT record offered to another
+            // section or under a non-root owner) may be refused or accepted, but whatever the
+            // library answers the packet has to stay one its own parser accepts.
             let opt = gen_opt(rng);
             let rd = match opt.rdata {
                 RData::Opaque(o) => o,
                 _ => Vec::new(),
             };
+            let irregular = has_opt || rng.chance(1, 4);
+            let opt_section = if irregular && rng.chance(1, 3) { section } else { 3 };
+            let opt_owner: String = if irregular && rng.chance(1, 4) {
+                String::from_utf8_lossy(&owner.text()).into_owned()
+            } else {
+                ".".into()
+            };
             return Op::InsertRR {
-                section: 3,
-                name_text: ".".into(),
+                section: opt_section,
+                name_text: opt_owner,
                 rtype: T_OPT,
                 ttl: opt.ttl,
                 rdata: rd,
@@ -582,6 +593,15 @@ impl Source for GenSource {
                     ]
                 };
                 let mut kind = *rng.pick(kinds);
+                // a deletion walk over the question first, so that the walks that follow meet a
+                // packet whose first record section begins right behind the header
+                let question_first = self.cfg.focus == Focus::DeleteWalk
+                    && self.emitted <= 1
+                    && v.model.q.is_some()
+                    && rng.chance(1, 10);
+                if question_first {
+                    kind = W_QUESTION;
+                }
                 // prefer non-empty sections
                 for _ in 0..3 {
                     let n = if kind == W_EDNS {
@@ -600,7 +620,7 @@ impl Source for GenSource {
                 };
                 self.plan = if complete {
                     WalkPlan::Complete {
-                        p_del: *rng.pick(&[0usize, 100, 300, 300, 600, 1000]),
+                        p_del: if question_first { 1000 } else { *rng.pick(&[0usize, 100, 300, 300, 600, 1000]) },
                         double_delete: rng.chance(1, 3),
                         pending_double: false,
                         use_opt: kind == W_ADDITIONAL_OPT,
